@@ -122,6 +122,10 @@ type session struct {
 	authTag uint32
 }
 
+// sessionUseChecksum is the UseChecksum option of the sessions created next (nil = default); the option governs what the
+// client sends, never what it accepts, so histories are the same for every setting
+var sessionUseChecksum interface{}
+
 func newSession(user, password, key string, rcvTimeout time.Duration, bufBlocks uint16) (s *session, err error) {
 	defer func() {
 		if r := recover(); r != nil {
@@ -130,7 +134,7 @@ func newSession(user, password, key string, rcvTimeout time.Duration, bufBlocks 
 	}()
 	cl, err := rscp.NewClient(rscp.ClientConfig{Address: "127.0.0.1", Port: 1, Username: user, Password: password, Key: key,
 		ConnectionTimeout: 300 * time.Millisecond, SendTimeout: 300 * time.Millisecond, ReceiveTimeout: rcvTimeout, ReceiveBufferBlockSize: bufBlocks,
-		HeartbeatInterval: time.Second + 1})
+		HeartbeatInterval: time.Second + 1, UseChecksum: sessionUseChecksum})
 	if err != nil {
 		return nil, err
 	}
@@ -424,7 +428,12 @@ func init() {
 			user, pw := "user"+strconv.Itoa(g.pick(100)), string(g.bytes(1+g.pick(12)))
 			key := string(g.bytes(1 + g.pick(40)))
 			user, pw, key = g.edgeCredentials(i, user, pw, key)
+			sessionUseChecksum = nil
+			if i%4 == 2 {
+				sessionUseChecksum = false
+			}
 			s, err := newSession(user, pw, key, 120*time.Millisecond, uint16(1+g.pick(3)))
+			sessionUseChecksum = nil
 			if err != nil {
 				continue
 			}
@@ -455,6 +464,13 @@ func init() {
 				}
 				healthy := c.kind != "D" && c.dialOk && c.writeOk && c.auth.beh.kind == "ok" && strings.HasPrefix(c.auth.model, "F [ M 8388609 3 n u8 10") &&
 					c.user.beh.kind == "ok" && rscp.VerifValidateRequests(c.reqs) == nil
+				// a reply with a wrong checksum is never handed to the caller, whatever the client's own checksum option
+				if strings.HasPrefix(r, "ok ") && c.kind != "D" {
+					authedNow := strings.Contains(r, fmt.Sprintf("[ M %d ", s.authTag))
+					if c.user.beh.kind == "badCrc" || (authedNow && c.auth.beh.kind == "badCrc") {
+						addVerdict(&prop, "FAIL C08 a call whose reply carried a wrong checksum returns success: "+trunc(r, 120)+" ;; FAIL C04 a reply with a wrong checksum is accepted")
+					}
+				}
 				if healthy && !strings.HasPrefix(r, "ok ") && prop == "pass" {
 					if brokenBefore {
 						prop = "FAIL C08 no recovery: after a failed call / disconnect the next call against a healthy peer gives " + trunc(r, 120)
@@ -510,7 +526,7 @@ func (g *gen) edgeCredentials(i int, user, pw, key string) (string, string, stri
 	if i%3 != 1 {
 		return user, pw, key
 	}
-	edges := []string{"\n", "\r\n", "\r", " ", "\t", "\x00", "\n\n", " \n"}
+	edges := []string{"\n", "\r\n", "\r", " ", "\t", "\x00", "\n\n", " \n", "ä", "€uro", "😀", "日本語", "ÄÖÜß"}
 	e := edges[g.pick(len(edges))]
 	switch g.pick(7) {
 	case 0:
